@@ -92,7 +92,7 @@ ChooseShape ==
           \E ao \in SipOrders : \E bo \in SipOrders : \E pat \in InvPatterns : \E ps \in PVSetPairs :
           /\ (pr # "SIP" => ao = 2 /\ bo = 2 /\ pat = "equal")
           /\ (~IsPV([proj |-> pr]) => ps = <<"all", "all">>)
-          /\ (~OrdVariety => ao = SipMaxOrder /\ bo = SipMaxOrder /\ pat # "crossed" /\ ps = <<"all", "all">>)
+          /\ (~OrdVariety => ps = <<"all", "all">> /\ (pr = "SIP" => ao = SipMaxOrder /\ bo = SipMaxOrder /\ pat # "crossed"))
           /\ c' = [kind |-> "shape",
                    h |-> [proj |-> pr, crpix |-> CrpixOf(cp), cd |-> CDMat(cd), co |-> <<>>, invkeys |-> pat # "absent",
                           ord |-> IF pr = "SIP" THEN <<ao, bo>> ELSE <<0, 0>>,
